@@ -49,6 +49,7 @@ def main():
                     proof.bad.append(("leanchecker", out[-400:]))
         deep = proof is not None and not proof.ok
         mod.run(rep, args.tier, seed, deep=deep)
+        rep.flush_deferred()
         if proof is not None and not proof.ok and not any(v["found_input"] for v in rep.violations):
             why = []
             if not proof.built:
